@@ -77,8 +77,37 @@ def nontrivial(r):
     return f.get("resumed", 0) >= 1
 
 
+# joins, several start tasks, failures, and the pattern "pause, let what is in flight finish, resume": what a pause holds
+# back must count as work in progress for the joins (engine vs model in lock step, no twin)
+HELD_FAM = progs.family(p_pause_drain=0.5, p_join=0.8, p_join_count=0.3, p_fail=0.25, fanout=(1, 3), n_tasks=(4, 8),
+                        p_when=0.7, p_cmd=0.1, w_ctrl=0.5, w_rerun=0.0, w_malformed=0.0, steps=(15, 60))
+
+
 def run(ctx):
     fam = dict(FAM, tier=ctx["tier"])
+    out = _run(ctx, fam)
+    if ctx["model_ok"]:
+        n = 250 if ctx["tier"] == "quick" else 3000
+        base = (ctx["seed"] * 9176 + 77) % (2 ** 31)
+        cfg = {"fam": HELD_FAM, "project": common.project_full, "monitor": None, "features": None,
+               "gen": progs.gen_definition, "history": progs.run_history, "known_ids": []}
+        res = common.run_cases([base + i for i in range(n)], True, cfg)
+        out["held_back_work_cases"] = len(res)
+        out["traces_validated"] = out.get("traces_validated", 0) + sum(r.get("calls", 0) for r in res)
+        divs = [r for r in res if "divergence" in r]
+        errs = [r for r in res if "error" in r]
+        if errs:
+            out["violations"].append({"property": "C09", "what": "harness error in the held-back-work batch",
+                                      "error": errs[0]["error"][-600:], "seed": errs[0]["seed"]})
+        if divs and not out.get("correspondence_broken"):
+            d = divs[0]
+            out["correspondence_broken"] = {"cases_diverging": len(divs), "first": {
+                "seed": d["seed"], "definition": d["definition"], "inputs": d["inputs"], "ops": d["ops"],
+                "divergence": d["divergence"]}}
+    return out
+
+
+def _run(ctx, fam):
     return common.conductor_run(
         ctx, "C09", fam, common.project_full, monitors.c09, features, nontrivial, 160, 1500,
         rule="generated definitions; (a) random history dense in pause/resume requests compared with the Coq model "
